@@ -88,21 +88,44 @@ func c06Cores(s *Server, uri protocol.DocumentURI, content string, paths bool) {
 	_, _ = s.Format(ctx, &protocol.DocumentFormattingParams{TextDocument: protocol.TextDocumentIdentifier{URI: uri}})
 }
 
-// c06Positional runs the handlers that take a cursor position, with an arbitrary Position.
-func c06Positional(s *Server, uri protocol.DocumentURI, content string) {
+// c06ValidMultibyteStart: some byte of x is a UTF-8 lead byte followed by a continuation byte,
+// i.e. x may contain a valid multi-byte character made of symbolic bytes. (Conditions on single
+// bytes: decided without the solver; the UTF-8 decoders of the code under test split on the same
+// classes.)
+func c06ValidMultibyteStart(x string) bool {
+	for i := 0; i+1 < len(x); i++ {
+		if x[i] >= 0xC2 && x[i] <= 0xF4 && x[i+1] >= 0x80 && x[i+1] <= 0xBF {
+			return true
+		}
+	}
+	return false
+}
+
+// c06Positional runs the handlers that take a cursor position. lower=false leaves out the
+// requests that lower-case document text (completion's fuzzy matching): the engine's
+// strings.ToLower model covers ASCII, invalid bytes and concrete non-ASCII characters, not a
+// valid multi-byte character made of symbolic bytes; those requests see non-ASCII text
+// through the concrete representatives c06NonASCII instead.
+func c06Positional(s *Server, uri protocol.DocumentURI, content string, pos protocol.Position, lower bool) {
 	ctx := context.Background()
-	pos := protocol.Position{Line: zzverif.Uint32("line"), Character: zzverif.Uint32("char")}
 	tdp := protocol.TextDocumentPositionParams{TextDocument: protocol.TextDocumentIdentifier{URI: uri}, Position: pos}
 	_, _ = s.Hover(ctx, &protocol.HoverParams{TextDocumentPositionParams: tdp})
 	_, _ = s.Definition(ctx, &protocol.DefinitionParams{TextDocumentPositionParams: tdp})
 	_, _ = s.References(ctx, &protocol.ReferenceParams{TextDocumentPositionParams: tdp, Context: protocol.ReferenceContext{IncludeDeclaration: true}})
 	_, _ = s.PrepareRename(ctx, &protocol.PrepareRenameParams{TextDocumentPositionParams: tdp})
 	_, _ = s.Rename(ctx, &protocol.RenameParams{TextDocumentPositionParams: tdp, NewName: "x:y"})
+	_, _ = s.SemanticTokensRange(ctx, &protocol.SemanticTokensRangeParams{TextDocument: tdp.TextDocument, Range: protocol.Range{Start: pos, End: pos}})
+	_, _ = s.SemanticTokensRange(ctx, &protocol.SemanticTokensRangeParams{TextDocument: tdp.TextDocument, Range: protocol.Range{End: pos}})
+	_, _ = s.FoldingRanges(ctx, &protocol.FoldingRangeParams{TextDocumentPositionParams: tdp})
+	if !lower {
+		zzverif.Reach("C06.requests.nolower")
+		return
+	}
 	// the three trigger situations one after the other on the same path (no extra fork)
 	for _, cc := range []*protocol.CompletionContext{nil, {TriggerCharacter: ":"}, {TriggerCharacter: "@"}} {
 		_, _ = s.Completion(ctx, &protocol.CompletionParams{TextDocumentPositionParams: tdp, Context: cc})
 	}
-	_ = filterTokensByRange(tokenizeForSemantics(content), protocol.Range{Start: pos, End: pos})
+	zzverif.Reach("C06.requests.completion")
 }
 
 func c06Server(content string) (*Server, protocol.DocumentURI) {
@@ -158,25 +181,50 @@ func verifC06ParsePrefix(maxN int) {
 	zzverif.Reach("C06.parseprefix.end")
 }
 
+// concrete non-ASCII text for the requests that lower-case document text: 2-, 3- and 4-byte
+// characters, an upper-case letter, and the two characters whose lower-case form has a
+// different byte length (U+0130, U+212A), as account, payee, tag and commodity.
+var c06NonASCII = []string{
+	"2024-01-15 \u00c9t\u00e9\n    \u00e9:\u20ac  1 \U0001F600\n    \u00c9",
+	"2024-01-15 \u0130 ; \u212a:\u0130\n    \u0130:\u212a  1 \u212a\n    \u0130:",
+	"account \u00c9:\u00e9\n2024-01-15 x\n    \u00e9",
+}
+
 // VerifC06Requests: the whole request surface, including the background diagnostics task and
 // the position-taking handlers with an arbitrary Position, on prefix ++ x (x = 0..1 / 0..2 bytes)
-// and on x alone.
-func VerifC06Requests()     { verifC06Requests(1, 2) }
-func VerifC06RequestsLong() { verifC06Requests(2, 3) }
+// and on x alone (0..2 / 0..3 bytes). Quick: Position = two unconstrained uint32. Thorough:
+// coordinates 0..255 or 2^32-256..2^32-1 (c06SmallPos: conditions on one symbolic byte need no
+// solver call, which is what makes the longer x affordable).
+func VerifC06Requests()     { verifC06Requests(1, 2, false) }
+func VerifC06RequestsLong() { verifC06Requests(2, 3, true) }
 
-func verifC06Requests(maxPre, maxBare int) {
-	k := zzverif.Choice("prefix", len(c06Prefixes)+2)
-	maxN := maxPre
-	if k == len(c06Prefixes) {
-		maxN = maxBare
+func verifC06Requests(maxPre, maxBare int, smallPos bool) {
+	k := zzverif.Choice("prefix", len(c06Prefixes)+3)
+	var content string
+	paths, lower := true, true
+	if k == len(c06Prefixes)+2 {
+		content = c06NonASCII[zzverif.Choice("nonascii", len(c06NonASCII))]
+	} else {
+		maxN := maxPre
+		if k == len(c06Prefixes) {
+			maxN = maxBare
+		}
+		n := zzverif.Choice("n", maxN+1)
+		content, paths = c06Content(k, n)
+		lower = !c06ValidMultibyteStart(content[len(content)-n:])
 	}
-	content, paths := c06Content(k, zzverif.Choice("n", maxN+1))
 	s, uri := c06Server(content)
 	if paths {
 		c06Drain(s, uri, content) // the background diagnostics task (include loader + analysis)
 	} else {
-		_ = s.analyze(content)
+		_ = s.analyze(content, nil)
 	}
-	c06Positional(s, uri, content)
+	var pos protocol.Position
+	if smallPos {
+		pos = c06SmallPos()
+	} else {
+		pos = protocol.Position{Line: zzverif.Uint32("line"), Character: zzverif.Uint32("char")}
+	}
+	c06Positional(s, uri, content, pos, lower)
 	zzverif.Reach("C06.requests.end")
 }
